@@ -42,6 +42,9 @@ func scenarioFromJSON(m map[string]interface{}) (*explore.Scenario, error) {
 	if w, ok := m["wrap_fs"].(string); ok {
 		sc.WrapFS = w
 	}
+	if f, ok := m["fail_seg_create"].(float64); ok {
+		sc.FailSegCreate = int(f)
+	}
 	if f, ok := m["tick_budget"].(float64); ok {
 		sc.TickBudget = int(f)
 	}
@@ -85,6 +88,9 @@ func init() {
 		switch c.Prop {
 		case "C05":
 			check = c05Check(c, base, sc, recMemo{}, map[string]string{})
+			if sc.FailSegCreate > 0 {
+				check = c05FaultConcCheck(c, base, sc, recMemo{})
+			}
 		case "C06":
 			check = c06ConcCheck(c, base, sc, recMemo{}, nil)
 			if strings.HasPrefix(sc.Name, "W2-") {
